@@ -91,6 +91,13 @@ def refine(ex, test_ast, env, label):
             env[k] = TRUTHY if truth else FALSY
     return env
 
+def _pure_funcs():
+    import textwrap, html, os.path
+    return {"textwrap.dedent": textwrap.dedent, "html.escape": html.escape, "os.path.basename": os.path.basename,
+            "os.path.dirname": os.path.dirname, "os.path.join": os.path.join}
+
+
+PURE_FUNCS = _pure_funcs()
 MUTATORS = {"append", "add", "appendleft", "extend", "insert", "pop", "popleft", "remove", "clear", "sort", "reverse",
             "discard", "update", "setdefault", "popitem", "rotate"}
 PURE_METHODS = {"lower", "upper", "strip", "lstrip", "rstrip", "startswith", "endswith", "casefold",
@@ -392,6 +399,28 @@ class Explorer:
             v = self._inline(e, env)
             if v is not UNKNOWN:
                 return v
+            qf = self.repo.call_target(self.func.module, self.func, e) if isinstance(e.func, (ast.Name, ast.Attribute)) else None
+            if qf in PURE_FUNCS:
+                # a side-effect free standard-library function applied to known values
+                args = [self.ev(a, env) for a in e.args]
+                kws = {k.arg: self.ev(k.value, env) for k in e.keywords if k.arg}
+                if any(a is UNKNOWN or isinstance(a, (_Refined, SpecObj)) for a in args + list(kws.values())) or any(k.arg is None for k in e.keywords):
+                    return UNKNOWN
+                try:
+                    return PURE_FUNCS[qf](*args, **kws)
+                except Exception:
+                    return UNKNOWN
+            if isinstance(e.func, ast.Attribute) and e.func.attr == "format":
+                recv = self.ev(e.func.value, env)
+                if isinstance(recv, str):
+                    args = [self.ev(a, env) for a in e.args]
+                    kws = {k.arg: self.ev(k.value, env) for k in e.keywords if k.arg}
+                    if any(a is UNKNOWN or isinstance(a, _Refined) for a in args + list(kws.values())) or any(k.arg is None for k in e.keywords):
+                        return UNKNOWN
+                    try:
+                        return recv.format(*[str(a) if isinstance(a, SpecObj) else a for a in args], **kws)
+                    except Exception:
+                        return UNKNOWN
             if isinstance(e.func, ast.Attribute) and not e.keywords:
                 base = self.ev(e.func.value, env)
                 if isinstance(base, SpecObj) and callable(getattr(base, e.func.attr, None)):
